@@ -196,12 +196,17 @@ def check_forest(model, kind, neighbours_of):
     return None
 
 
-def run_unsup(case, want=("C13", "C14", "C16")):
+def run_unsup(case, want=("C13", "C14", "C16"), m=None):
     from opfython.models.unsupervised import UnsupervisedOPF
     Wm, M = weights(case)
     X = np.asarray(case["X"], dtype=float)
     n = len(X)
-    m = UnsupervisedOPF(min_k=case["min_k"], max_k=case["max_k"], distance=case["metric"])
+    if m is None:
+        m = UnsupervisedOPF(min_k=case["min_k"], max_k=case["max_k"], distance=case["metric"])
+    else:
+        m.max_k = max(m.max_k, case["max_k"])       # (the setter insists on min_k <= max_k at every moment)
+        m.min_k = case["min_k"]
+        m.max_k = case["max_k"]
     if case.get("pre"):
         m.pre_computed_distance = True
         m.pre_distances = M
@@ -319,14 +324,17 @@ def run_predict(case, model, kind):
     return None
 
 
-def run_knnsup(case):
+def run_knnsup(case, m=None):
     from opfython.models.knn_supervised import KNNSupervisedOPF
     import opfython.math.general as g
     X = np.asarray(case["X"], dtype=float)
     Y = np.asarray(case["Y"], dtype=int)
     XV = np.asarray(case["XV"], dtype=float)
     YV = np.asarray(case["YV"], dtype=int)
-    m = KNNSupervisedOPF(max_k=case["max_k"], distance=case["metric"])
+    if m is None:
+        m = KNNSupervisedOPF(max_k=case["max_k"], distance=case["metric"])
+    else:
+        m.max_k = case["max_k"]       # the same estimator object, fitted again
     accs = []
     orig = g.opf_accuracy
 
@@ -361,13 +369,20 @@ def run_case(case):
     try:
         if case["kind"] == "arcs":
             return run_c12(case)
+        prev = None
+        if case.get("before"):
+            # a history on ONE estimator object: the earlier case is fitted (and predicted) first, then this one
+            b = case["before"]
+            _r, prev = (run_unsup(b) if b["kind"] == "unsup" else run_knnsup(b))
+            if _r is None:
+                run_predict(b, prev, "unsup" if b["kind"] == "unsup" else "knn")
         if case["kind"] == "unsup":
-            res, m = run_unsup(case)
+            res, m = run_unsup(case, m=prev)
             if res:
                 return res
             return run_predict(case, m, "unsup")
         if case["kind"] == "knnsup":
-            res, m = run_knnsup(case)
+            res, m = run_knnsup(case, m=prev)
             if res:
                 return res
             return run_predict(case, m, "knn")
@@ -439,8 +454,16 @@ def explore(tier="quick", prop="C12"):
     seen = set()
     failure = None
     n_cases = {"quick": 1200, "thorough": 12000}[tier]
+    last = {}
     for _ in range(n_cases):
         case = gen_case(rng, prop)
+        k = case["kind"]
+        if k in ("unsup", "knnsup") and not case.get("pre"):
+            # every third such case re-uses the estimator object of an earlier case of the same kind and metric
+            b = last.get((k, case["metric"]))
+            if b is not None and rng.random() < 0.34 and len(b["X"][0]) == len(case["X"][0]):
+                case = dict(case, before=b)
+            last[(k, case["metric"])] = {kk: vv for kk, vv in case.items() if kk != "before"}
         res = run_case(case)
         stats["evaluations"] += 1
         key = json.dumps(case, sort_keys=True)
@@ -456,7 +479,8 @@ def explore(tier="quick", prop="C12"):
             failure = {"kind": "knn-case", "case": case, "observed": res}
             break
     stats["rule"] = ("real KNNSubgraph / UnsupervisedOPF / KNNSupervisedOPF on generated sample sets (n<=9, lattice with "
-                     "duplicates or random points, 3 symmetric + 2 non-symmetric metrics, pre-computed matrices with shuffled indices, k<=5) against "
+                     "duplicates or random points, 3 symmetric + 2 non-symmetric metrics, pre-computed matrices with shuffled indices, k<=5, every third model case on an estimator "
+                     "object already fitted and used on another case) against "
                      "brute-force oracles of the property statement; non-trivial = distinct case with >= 3 samples")
     return stats, failure
 
